@@ -131,6 +131,9 @@ func c12Concurrent(c *h.Ctx, id string, r *rand.Rand) {
 func c12Run(c *h.Ctx) {
 	r := c.Rng("c12")
 	n := c.Pick(40, 1200)
+	// one HMAC key length per child process: below, at and beyond the 64-byte block size of SHA-256
+	pkt.HmacKeyLen = []int{0, 1, 32, 64, 65, 80, 128, 200}[c.Batch%8]
+	c.Distinct(fmt.Sprintf("hmac-key-len=%d", pkt.HmacKeyLen))
 	pkt.GetKeys()
 	for i := 0; i < n; i++ {
 		id := fmt.Sprintf("p%d", i)
